@@ -18,7 +18,8 @@ ASSUMPTIONS = ['float results may exceed a bound by 1e-9 * max(1, |min|, |max|) 
 MIN_OBS = {'decodes': 50000, 'declarations': 200, 'monotone_pairs': 50000, 'hp_sessions': 30, 'hp_observations': 500,
            'declarations_with_zero_default': 4, 'decodes_with_repeated_letters': 2000,
            'session_dnas_with_repeated_letters': 1, 'hp_sessions_reusing_argument_objects': 10,
-           'hp_sessions_with_report_options': 4, 'fast_sessions_with_one_minute_chunks': 2}
+           'hp_sessions_with_report_options': 4, 'fast_sessions_with_one_minute_chunks': 2,
+           'int_declarations_with_float_typed_bounds': 20}
 EXHAUSTIVE_NOTE = 'Part 1 enumerates every letter of the alphabet at every gene position for every generated declaration'
 ALPHABET = r'()*+,-./0123456789:;<=>?@ABCDEFGHIJKLMNOPQRSTUVWXYZ[\]^_`abcdefghijklmnopqrstuvw'
 
@@ -49,6 +50,10 @@ def _part1(job):
                   'huge': rng.uniform(1e6, 1e12), 'unit': 0.0}[kind]
             hi = lo + {'pos': rng.uniform(0.01, 300), 'neg': rng.uniform(0.5, 600), 'span0': rng.uniform(1e-9, 1e-3),
                        'tiny': rng.uniform(1e-9, 1e-6), 'huge': rng.uniform(1, 1e12), 'unit': 1.0}[kind]
+        if typ == 'int' and rng.random() < 0.3:
+            # an int parameter whose bounds are WRITTEN as floats (1e2, 20.0): the decoded values are integers all the same
+            lo, hi = float(lo), float(hi)
+            cnt['int_declarations_with_float_typed_bounds'] = cnt.get('int_declarations_with_float_typed_bounds', 0) + 1
         decls.append({'name': f'p{len(decls)}', 'type': typ, 'min': lo, 'max': hi, 'default': lo})
     for d in decls:
         cnt['declarations'] = cnt.get('declarations', 0) + 1
